@@ -30,17 +30,21 @@ Log(c, rec) == hist' = Append(hist, rec @@ [c |-> c])
 
 Token(d) == IF d = "d" THEN "tok" ELSE "tok2"
 
+(* a session counts on one database at a time (repaired code) *)
+Move(s, d) == IF sel[s] = d THEN impl
+              ELSE [x \in Dbs |-> IF x = d THEN impl[x] + 1 ELSE IF x = sel[s] THEN impl[x] - 1 ELSE impl[x]]
+
 UseGood(s, d) ==
   /\ Log(s, [op |-> "use-db", d |-> d, tok |-> Token(d), u |-> "-"])
   /\ sel' = [sel EXCEPT ![s] = d]
-  /\ impl' = [impl EXCEPT ![d] = @ + 1]        \* never releases the previous selection
-  /\ dev' = (dev \/ sel[s] # "-")
+  /\ impl' = Move(s, d)
+  /\ UNCHANGED dev
 
 UseUser(s) ==
   /\ Log(s, [op |-> "use-db", d |-> "d", tok |-> "ut", u |-> "u1"])
   /\ sel' = [sel EXCEPT ![s] = "d"]
-  /\ impl' = [impl EXCEPT !["d"] = @ + 1]
-  /\ dev' = (dev \/ sel[s] # "-")
+  /\ impl' = Move(s, "d")
+  /\ UNCHANGED dev
 
 UseBad(s, d) ==
   /\ Log(s, [op |-> "use-db", d |-> d, tok |-> "bad", u |-> "-"])
